@@ -32,7 +32,9 @@ def _is_self_reborrow(body, operand):
     return False
 
 
-def run_method(lib, body, selfv, model=None, extra_env=None, eq_ok=None, depth=0, max_states=40000):
+def run_method(lib, body, selfv, model=None, extra_env=None, eq_ok=None, depth=0, max_states=40000, observe=None):
+    """[(final self, return value)] per distinct path outcome; with `observe` (environment keys a model uses to
+    carry per-path notes, e.g. a tuple of events) each outcome is (final self, return value, notes)."""
     outcomes = []
 
     def m(c, av, envv, pe):
@@ -65,7 +67,10 @@ def run_method(lib, body, selfv, model=None, extra_env=None, eq_ok=None, depth=0
 
     def hook(bb, e, first):
         if body.term(bb)["k"] == "return":
-            outcomes.append((pe._deref_all(e, e.get(1)), e.get(0)))
+            if observe:
+                outcomes.append((pe._deref_all(e, e.get(1)), e.get(0), tuple(e.get(k) for k in observe)))
+            else:
+                outcomes.append((pe._deref_all(e, e.get(1)), e.get(0)))
         return None
     pe.visit_hook = hook
     env = {1: ("rv", selfv)}
